@@ -265,7 +265,7 @@ func (in *Interp) runPath(fn *ssa.Function, item workItem, snap *snapshot) (rec 
 	in.ckEpoch = 0
 	in.permute = false
 	in.unwind = 10000
-	in.maxSteps = 50_000_000
+	in.maxSteps = 8_000_000
 	in.maxDepth = 3000
 	in.curHarness = fn.Name()
 	m := item.model
@@ -290,7 +290,11 @@ func (in *Interp) runPath(fn *ssa.Function, item workItem, snap *snapshot) (rec 
 			case pathEnd:
 				outcome = "end"
 			case inconclusiveErr:
-				in.incon = append(in.incon, e.why)
+				where := ""
+				for i := len(in.callStack) - 1; i >= 0 && i >= len(in.callStack)-4; i-- {
+					where += " < " + in.callStack[i].Name()
+				}
+				in.incon = append(in.incon, e.why+" [in"+where+"]")
 				outcome = "inconclusive"
 			case targetPanic:
 				outcome = "panic"
